@@ -12,7 +12,9 @@ M: transcription (AFTER the `fix:` commits listed for C18 in KNOWN_FINDINGS.txt)
      src/coap_str.c     coap_new_string / coap_new_str_const / coap_new_bin_const (one allocation each), coap_delete_string
      src/coap_net.c     the ownership skeleton of coap_send -> coap_send_lkd -> coap_send_internal -> coap_send_pdu ->
                         { written & freed | coap_wait_ack: queue node owns it | coap_session_delay_pdu: delay-queue node
-                        owns it | error & freed }   (UDP client session, ESTABLISHED, block mode off, no OSCORE)
+                        owns it | error & freed }   (UDP client session, ESTABLISHED or not yet, block mode off, no OSCORE)
+     src/coap_session.c coap_session_delay_pdu (node == NULL branch), coap_session_connected (the loop that drains the delay
+                        queue: a CON's node moves to the send queue, any other node is released with its PDU)
      src/coap_pdu.c / coap_cache.c / coap_resource.c
                         coap_pdu_duplicate_lkd, coap_cache_derive_key_w_ignore, coap_add_observer, coap_delete_observer with
                         the server session's reference count (section "Observe registrations" below)
@@ -209,6 +211,7 @@ def freeAll : List Nat → Heap → Heap
 structure Node where
   id : Nat
   pdu : OPdu
+  con : Bool               -- `node->pdu->type == COAP_MESSAGE_CON`: decides what coap_session_connected does with a delayed node
   deriving Repr, DecidableEq
 
 /-- what the send path reads and writes in the session / context -/
@@ -217,6 +220,7 @@ structure Sess where
   nstart : Nat := 1
   maxTok : Nat := 8
   writeOk : Bool := true         -- result of the socket write
+  established : Bool := true     -- `session->state == COAP_SESSION_STATE_ESTABLISHED` (false: DTLS handshake / TCP connect / CSM pending)
   sendq : List Node := []        -- context->sendqueue (nodes of this session)
   delayq : List Node := []       -- session->delayqueue
   deriving Repr, DecidableEq
@@ -228,25 +232,48 @@ inductive SendRes where
   | error          -- COAP_INVALID_MID, PDU released
   deriving Repr, DecidableEq
 
-/-- `coap_send_internal(session, pdu)` for a UDP session in state ESTABLISHED (`con` = `pdu->type == CON`) -/
+/-- `coap_send_internal(session, pdu)` for a UDP session (`con` = `pdu->type == CON`).  coap_send_pdu DELAYS the message
+(coap_session_delay_pdu: one request, the delay-queue node) when the session is not yet established -- whatever its type --
+or when it is a CON and the NSTART slots are taken.  coap_session_delay_pdu does NOT release the PDU when the node cannot be
+allocated: it returns COAP_INVALID_MID and the caller's `error:` label releases it, once.  (The message ids of a script are
+pairwise distinct, so the "mid already in use" refusal of coap_session_delay_pdu -- same exit -- does not occur.) -/
 def sendInternal (con : Bool) (p : OPdu) (s : Sess) (h : Heap) : SendRes × Sess × Heap :=
   -- coap_send_pdu
-  if con ∧ s.conActive ≥ s.nstart then
+  if ¬ s.established ∨ (con ∧ s.conActive ≥ s.nstart) then
     -- coap_session_delay_pdu(session, pdu, NULL): coap_new_node()
     match h.alloc with
     | (none, h1) => (.error, s, pduDelete p h1)
-    | (some n, h1) => (.delayed, { s with delayq := s.delayq ++ [⟨n, p⟩] }, h1)
+    | (some n, h1) => (.delayed, { s with delayq := s.delayq ++ [⟨n, p, con⟩] }, h1)
   else if ¬ s.writeOk then (.error, s, pduDelete p h)
   else if ¬ con then (.sentFreed, s, pduDelete p h)
   else
     -- con_active++ in coap_send_pdu; coap_new_node(); on failure the slot is given back (fix)
     match h.alloc with
     | (none, h1) => (.error, s, pduDelete p h1)
-    | (some n, h1) => (.queued, { s with conActive := s.conActive + 1, sendq := s.sendq ++ [⟨n, p⟩] }, h1)
+    | (some n, h1) => (.queued, { s with conActive := s.conActive + 1, sendq := s.sendq ++ [⟨n, p, con⟩] }, h1)
 
 /-- `coap_send(session, pdu)` → `coap_send_lkd` with block mode off: token length check, then `coap_send_internal` -/
 def send (con : Bool) (p : OPdu) (s : Sess) (h : Heap) : SendRes × Sess × Heap :=
   if p.tokLen > s.maxTok then (.error, s, pduDelete p h) else sendInternal con p s h
+
+/-- `coap_delete_node_lkd(node)`: the PDU (buffer, header), then the node -/
+def nodeDelete (q : Node) (h : Heap) : Heap := (pduDelete q.pdu h).free q.id
+
+/-- the loop of `coap_session_connected(session)` over `session->delayqueue` (UDP): a CON at the head waits while the NSTART
+slots are taken (the loop ends); otherwise the head is taken off the queue and written; a CON's node goes to the send queue
+as it is (coap_wait_ack: NO new allocation, the node keeps owning the PDU), any other node is released with its PDU
+(coap_delete_node_lkd); a failed write ends the loop after the node has been dealt with. -/
+def drain : List Node → Sess → Heap → Sess × Heap
+  | [], s, h => ({ s with delayq := [] }, h)
+  | q :: rest, s, h =>
+    if q.con = true ∧ s.conActive ≥ s.nstart then ({ s with delayq := q :: rest }, h)
+    else
+      let s1 := if q.con = true then { s with conActive := s.conActive + 1, sendq := s.sendq ++ [q] } else s
+      let h1 := if q.con = true then h else nodeDelete q h
+      if s.writeOk = false then ({ s1 with delayq := rest }, h1) else drain rest s1 h1
+
+/-- `coap_session_connected(session)`: state ESTABLISHED, then the delay queue is drained -/
+def connected (s : Sess) (h : Heap) : Sess × Heap := drain s.delayq { s with established := true } h
 
 /-! ## Observe registrations: the subscriptions of ONE observable resource held for ONE server session
 
@@ -414,6 +441,7 @@ inductive HOp where
   | strFree                        -- F
   | send (con : Bool)              -- Vc Vn
   | write (ok : Bool)              -- W0 W1
+  | estab (up : Bool)              -- E0 (session->state = CONNECTING: handshake / connect pending)  E1 (coap_session_connected)
   | obsAdd (toklen : Nat)          -- A<len>   coap_add_observer(resource, server session, token, current PDU)
   | obsDel (toklen : Nat)          -- B<len>   coap_delete_observer(resource, server session, token)
   deriving Repr, DecidableEq
@@ -495,6 +523,9 @@ def St.step (st : St) : HOp → Out × St
     | none => (.skip, st)
     | some p => let (r, s1, h1) := send con p st.sess st.heap; (.sent r, { st with heap := h1, sess := s1, pdu := none })
   | .write ok => (.num 1, { st with sess := { st.sess with writeOk := ok } })
+  | .estab up =>
+    if up then let (s1, h1) := connected st.sess st.heap; (.num 1, { st with heap := h1, sess := s1 })
+    else (.num 1, { st with sess := { st.sess with established := false } })
   | .obsAdd toklen =>
     match st.pdu with
     | none => (.skip, st)
@@ -514,7 +545,7 @@ def St.cleanup (st : St) : St :=
   let h := match st.pdu with | some p => pduDelete p st.heap | none => st.heap
   let h := optlistDelete st.ol h
   let h := freeAll st.strs h
-  let h := (st.sess.sendq ++ st.sess.delayq).foldl (fun h n => (pduDelete n.pdu h).free n.id) h
+  let h := (st.sess.sendq ++ st.sess.delayq).foldl (fun h n => nodeDelete n h) h
   -- coap_free_resource: every subscription gives its reference back and is released
   let h := st.obs.subs.foldl (fun h s => ((pduDelete s.pdu h).free s.keyId).free s.id) h
   { st with heap := h, pdu := none, ol := [], strs := [], sess := { st.sess with sendq := [], delayq := [] },
